@@ -128,3 +128,25 @@ Theorem C15_pruning_order_mnn_fallback :
     forall r p, r < length F -> ~ In r Hf -> In p Hf -> gle (nth r d ENaN) (nth p d ENaN).
 Proof. exact fallback_mnn_pruning_order. Qed.
 Print Assumptions C15_pruning_order_mnn_fallback.
+
+(* ---- binary64: the comparisons of IEEE doubles form a strict weak order on all values but NaN, infinities included
+   (Base/NumFOrd.v, Flocq), so the cut theorems hold for the crowding vectors the code actually computes ---- *)
+From Coq Require Import PrimFloat.
+From PV Require Import Base.NumF Base.NumFOrd.
+Theorem C15_infinite_members_survive_float :
+  forall (front : list nat) m sel (crowd : list float) perm sv,
+    length crowd = length front -> length perm = length crowd -> NoDup perm -> Forall (fun i => i < length crowd) perm ->
+    pick crowd perm = Some sv -> sorted_by (N := Fn) true sv = true -> pick front (firstn m perm) = Some sel ->
+    Forall nonnanf crowd ->
+    length (filter (fun j => negb (PrimFloat.ltb (nth j crowd infinity) infinity)) (seq 0 (length crowd))) <= m ->
+    forall j x, nth_error front j = Some x -> PrimFloat.ltb (nth j crowd infinity) infinity = false -> In x sel.
+Proof. intros front m sel crowd perm sv H1 H2 H3 H4 H5 H6 H7 H8. exact (C15_infinite_members_survive Fn nonnanf Fn_ord_nn front m sel crowd perm sv infinity H1 H2 H3 H4 H5 H6 H7 H8 nonnanf_inf). Qed.
+Print Assumptions C15_infinite_members_survive_float.
+
+Theorem C15_dropped_have_smallest_crowding_float :
+  forall (crowd : list float) perm sv m a b,
+    length perm = length crowd -> pick crowd perm = Some sv -> sorted_by (N := Fn) true sv = true -> Forall nonnanf crowd ->
+    In a (firstn m perm) -> In b (skipn m perm) ->
+    exists va vb, nth_error crowd a = Some va /\ nth_error crowd b = Some vb /\ PrimFloat.leb vb va = true.
+Proof. exact (C15_dropped_have_smallest_crowding Fn nonnanf Fn_ord_nn). Qed.
+Print Assumptions C15_dropped_have_smallest_crowding_float.
